@@ -154,6 +154,46 @@ pub fn run(ctx: &Ctx) -> ! {
         rep.extra("ball_reconfiguration_world", json!({"nominal_len": nom_rc.len(), "deviation_alphabet": dev_rc.len(), "bound_completed": st.depth_completed, "histories": st.transitions, "states": st.states}));
     }
 
+    // (f) who registers when: in every epoch either all signers register, or only signers 0 and 1,
+    // each optionally followed by a LATE registration of signer 2 (one that names the round of the
+    // previous epoch, already closed, and must be refused). All combinations over the first three
+    // (thorough: four) epochs of the default-configuration world, run until every one of those
+    // registration rounds has been used for signing. Honest signers follow the signer lists the
+    // aggregator announces; the invariants use the registrations the harness saw accepted.
+    {
+        use crate::world::Kind;
+        let run_rg = |h: &[Ev]| crate::sys::replay_kind(&scratch, h, 3, 1, Kind::MsdOnly);
+        let ex_rg = Explorer { threads: ctx.threads(), budget: None, run: &run_rg };
+        let varied = ctx.tier.pick(3usize, 4usize);
+        let choices: Vec<Vec<Ev>> = vec![
+            vec![Ev::RegisterAll],
+            vec![Ev::Register(0), Ev::Register(1)],
+            vec![Ev::Register(0), Ev::Register(1), Ev::RegisterLate(2)],
+            vec![Ev::RegisterAll, Ev::RegisterLate(2)],
+        ];
+        let build = |pick: &[usize]| -> Vec<Ev> {
+            let mut h: Vec<Ev> = vec![Ev::Tick];
+            h.extend(choices[pick[0]].iter().cloned());
+            for e in 1..varied + 2 {
+                h.extend([Ev::Epoch(1), Ev::Tick, Ev::Tick, Ev::Tick]);
+                h.extend(choices[if e < varied { pick[e] } else { 0 }].iter().cloned());
+                h.extend([Ev::SigAll(Ty::Msd), Ev::Tick, Ev::Quiesce]);
+            }
+            h
+        };
+        let nom_rg = build(&vec![0; varied]);
+        let family = |_: &[Ev]| -> Vec<Vec<Ev>> {
+            let mut out = vec![];
+            for code in 1..4usize.pow(varied as u32) {
+                let pick: Vec<usize> = (0..varied).map(|p| (code / 4usize.pow(p as u32)) % 4).collect();
+                out.push(build(&pick));
+            }
+            out
+        };
+        let st = ex_rg.ball(&nom_rg, &family, 1, &mut rep);
+        rep.extra("registration_choice_family", json!({"epochs_with_a_choice": varied, "choices_per_epoch": choices.len(), "nominal_len": nom_rg.len(), "histories": st.transitions, "states": st.states}));
+    }
+
     // (c) operation interleavings at the hook points: while one operation is parked at a point,
     // another complete operation runs
     let sched = if quick { short.clone() } else { nom.clone() };
